@@ -14,7 +14,7 @@ pub fn spec() -> Spec {
     Spec {
         prop: "C18",
         level: "exploration",
-        rule: "Reference filter (positional topics, null = wildcard, list = alternatives, address equality, order (block, txIndex, logIndex), each log once) over the receipts the harness collected, compared as a list with eth_getLogs for generated filters: address {none, emitter, other} x up to 4 topic positions {absent, null, hit, miss, list with hit, list of misses} x ranges {single block, default latest, 2..6 blocks, 7 (must be refused), reversed, hex/decimal/tag spellings}; every filter asked while all blocks are uncommitted, after commit, and while later uncommitted blocks exist. Unspecified corners (empty alternative list, null inside a list) are sent but only checked for 'no crash, same answer committed/uncommitted'. Non-trivial = filter whose reference answer has >=2 logs from >=2 transactions; distinct by filter shape.",
+        rule: "Reference filter (positional topics, null = wildcard, list = alternatives, address equality, order (block, txIndex, logIndex), each log once) over the receipts the harness collected, compared as a list with eth_getLogs for generated filters: address {none, emitter, other} x up to 4 topic positions {absent, null, hit, miss, list with hit, list of misses} x ranges {single block, default latest, 2..6 blocks, 7 (must be refused), reversed, hex/decimal/tag spellings}; every filter asked while all blocks are uncommitted, after commit, and while later uncommitted blocks exist. Unspecified corners (empty alternative list, null inside a list) are sent but only checked for 'no crash, same answer committed/uncommitted'. One shard in sixteen also runs a mass case: a transaction with over 10 000 logs and six blocks that exceed 10 000 matching logs only together, queried uncommitted and committed. Non-trivial = filter whose reference answer has >=2 logs from >=2 transactions; distinct by filter shape.",
         assumptions: vec!["a null at a position beyond a log's topic count is read as 'constrains nothing' (the statement says null = wildcard)".into()],
         exhaustive: false,
         min_nontrivial: 2,
@@ -389,6 +389,66 @@ fn one_case(ctx: &WorkerCtx, rep: &mut WorkerReport, case_seed: u64, nfilters: u
     drop_driver(d);
 }
 
+/// Many logs: more than 10 000 matching logs inside one legal range (one transaction emitting over
+/// 10 000, and six blocks that only exceed it together). Nothing may be cut off silently.
+fn mass_case(ctx: &WorkerCtx, rep: &mut WorkerReport, case_seed: u64) {
+    let mut rng = Rng::new(case_seed);
+    let mut d = new_driver("C18");
+    d.exec(Op::Init { hash: hist::ZERO_HASH.into(), ts: 1, height: 0 });
+    let pk = "5120dddddddddddddddddddddddddddddddddddddddddddddddddddddddddddddddd".to_string();
+    let hash = crate::hist::bh(0x18aa);
+    let mut emitters = Vec::new();
+    for i in 0..2u64 {
+        let r = d.exec(Op::Deploy { pk: pk.clone(), data: hist::hx(&asm::tool_init()), enc: Enc::Hex, ctx: Ctx { ts: 2, hash: hash.clone(), idx: i }, iid: format!("c18-mass-deploy-{}i0", i), len: 100_000, txid: hist::ZERO_HASH.into() });
+        if let Some(a) = hist::created_address(&r) {
+            emitters.push(a);
+        }
+    }
+    d.exec(Op::Finalise { ts: 2, hash, count: 2 });
+    if emitters.len() < 2 {
+        rep.inconclusive("could not deploy the emitters");
+        drop_driver(d);
+        return;
+    }
+    // block 2: one transaction with a little over 10 000 logs; blocks 3..8: ~1 700..2 100 logs each
+    let mut uniq = 0u64;
+    let mut counts: Vec<Vec<u64>> = vec![vec![10_001 + rng.below(200)]];
+    for _ in 0..6 {
+        counts.push(vec![1_700 + rng.below(400), rng.range(1, 3)]);
+    }
+    for (b, txs) in counts.iter().enumerate() {
+        let h = crate::hist::bh(0x18b0 + b as u64);
+        for (i, c) in txs.iter().enumerate() {
+            uniq += 1;
+            let e = emitters[(b + i) % 2].clone();
+            let data = asm::tool_call(asm::OP_LOGS, &[asm::word_u64(*c), hist_word(&topic((b % 3) as u64)), asm::word_u64(0x70_0000)], &[]);
+            d.exec(Op::Call { pk: pk.clone(), target: Target::Addr(e), data: Some(hist::hx(&data)), enc: Enc::Hex, ctx: Ctx { ts: 10 + b as u64, hash: h.clone(), idx: i as u64 }, iid: format!("c18-mass-{}i0", uniq), len: 1_000_000, txid: hist::ZERO_HASH.into() });
+        }
+        let n = d.ntx;
+        d.exec(Op::Finalise { ts: 10 + b as u64, hash: h, count: n });
+    }
+    let latest = d.height as u64;
+    let logs = collect_logs(&mut d);
+    rep.count("reference_logs", logs.len() as u64);
+    let r = |a: u64, b: u64| (Some((a, format!("0x{:x}", a))), Some((b, format!("0x{:x}", b))));
+    let mut filters: Vec<Filter> = Vec::new();
+    for (from, to) in [r(2, 2), r(3, 8), r(3, 7), r(4, 8), r(2, 7), r(latest - 5, latest), r(5, 5)] {
+        filters.push(Filter { from: from.clone(), to: to.clone(), address: None, topics: None, unspecified: false });
+        filters.push(Filter { from: from.clone(), to: to.clone(), address: Some(emitters[0].clone()), topics: None, unspecified: false });
+        filters.push(Filter { from, to, address: None, topics: Some(vec![Pos::Many(vec![Some(topic(0)), Some(topic(1))])]), unspecified: false });
+    }
+    let mut first = vec![None; filters.len()];
+    let big = filters.iter().filter(|f| reference(f, &logs, latest).map(|v| v.len() > 10_000).unwrap_or(false)).count();
+    if ask_all(ctx, rep, &mut d, &filters, &logs, "mass-uncommitted", case_seed, &mut first) {
+        d.exec(Op::Commit);
+        if ask_all(ctx, rep, &mut d, &filters, &logs, "mass-committed", case_seed, &mut first) {
+            rep.nontrivial(format!("mass:{}-filters-over-10000-matches", big));
+            rep.count("filters_with_over_10000_matches", 2 * big as u64);
+        }
+    }
+    drop_driver(d);
+}
+
 pub fn worker(ctx: &WorkerCtx) -> WorkerReport {
     let (net, traces) = net_for_shard(ctx.shard);
     crate::setup_env(net, traces);
@@ -398,6 +458,10 @@ pub fn worker(ctx: &WorkerCtx) -> WorkerReport {
     for _ in 0..cases {
         let cs = rng.next();
         one_case(ctx, &mut rep, cs, nf);
+    }
+    if ctx.shard % 16 == 0 {
+        let cs = rng.next();
+        mass_case(ctx, &mut rep, cs);
     }
     rep
 }
